@@ -335,8 +335,25 @@ static int zs_init(ABT_sched s, ABT_sched_config c)
     (void)c;
     return ABT_SUCCESS;
 }
+static ABT_pool zs_some_pool;
 static void zs_run(ABT_sched s)
 {
+    {
+        /* this function is run by the ULT of a main scheduler: it is never migratable (under the
+         * 1.x API ABT_thread_set_migratable has no effect on it and returns ABT_SUCCESS) and every
+         * request naming it is rejected */
+        ABT_thread self;
+        ABT_bool flag = ABT_TRUE;
+        ABT_OK(ABT_self_get_thread(&self));
+        ABT_OK(ABT_thread_set_migratable(self, ABT_TRUE));
+        ABT_OK(ABT_thread_is_migratable(self, &flag));
+        SIM_CHECK(flag == ABT_FALSE, "migrate:main-sched-ult", "the ULT of a main scheduler reports migratable after ABT_thread_set_migratable");
+        int rc = ABT_thread_migrate_to_pool(self, zs_some_pool);
+        SIM_CHECK(rc != ABT_SUCCESS, "migrate:main-sched-ult", "ABT_thread_migrate_to_pool naming the ULT of a main scheduler was accepted");
+        rc = ABT_thread_migrate(self);
+        SIM_CHECK(rc != ABT_SUCCESS, "migrate:main-sched-ult", "ABT_thread_migrate naming the ULT of a main scheduler was accepted");
+        sim_count("c13.requests_naming_a_main_scheduler_refused", 1);
+    }
     for (;;) {
         ABT_bool stop = ABT_FALSE;
         ABT_OK(ABT_sched_has_to_stop(s, &stop));
@@ -374,6 +391,7 @@ static void run_c13_rules(void)
             if (!rt.joined[e])
                 ABT_OK(ABT_xstream_set_rank(rt.xs[e], 20 + e));
         ABT_sched_def zdef = { .type = ABT_SCHED_TYPE_ULT, .init = zs_init, .run = zs_run, .free = zs_free, .get_migr_pool = NULL };
+        zs_some_pool = rt.pools[0];
         ABT_OK(ABT_sched_create(&zdef, 0, NULL, ABT_SCHED_CONFIG_NULL, &zsched));
         ABT_OK(ABT_xstream_create(zsched, &zxs));
         sim_note("+poolless-stream ");
